@@ -64,10 +64,18 @@ Get(p) == /\ Bound /\ p \in LeafPaths /\ ParentsExist(p) /\ store[p] # Absent
 RoundTrip(route) == /\ Bound
                     /\ store' = [p \in LeafPaths |-> Yamlise(store[p])]
                     /\ hist' = Append(hist, <<"roundtrip", <<route>>, "-">>) /\ UNCHANGED <<groups, siftType, lastGet, witness>>
+\* to_yaml_text() / to_yaml_file() alone.  AS IMPLEMENTED writing is not free of side effects on the object written: the
+\* store is copied one level deep only, so tuples / arrays held INSIDE an option group become lists in the live object
+\* (top-level values are left alone).  C18 says nothing about the object after saving; the model follows the code and the
+\* observation is recorded in DESIGN appendix B.
+Save(route) == /\ Bound
+               /\ store' = [p \in LeafPaths |-> IF Len(p) >= 2 THEN Yamlise(store[p]) ELSE store[p]]
+               /\ hist' = Append(hist, <<"save", <<route>>, "-">>) /\ UNCHANGED <<groups, siftType, lastGet, witness>>
 Next == \/ \E p \in LeafPaths : \E v \in Values : Set(p, v)
         \/ \E p \in LeafPaths : DelLeaf(p) \/ Get(p)
         \/ \E g \in GroupPaths : DelGroup(g)
         \/ \E r \in {"file", "text", "handle"} : RoundTrip(r)
+        \/ \E r \in {"file", "text"} : Save(r)
 Spec == Init /\ [][Next]_vars
 
 \* C18
